@@ -32,7 +32,7 @@ def write_cfg(path, protos, kas, ids, maxev, maxin, maxq, dev, tail):
 
 
 CLAUSES = ["TypeOK", "P0_ProtocolAlphabet", "P1_AckBeforeRun", "P2_DataIsLive", "P3_CompleteOnce", "P4_ViolationCodes",
-           "P5_SilentAfterClose", "MonitorInSync"]
+           "P5_SilentAfterClose", "P6_PongPerPing", "MonitorInSync"]
 
 
 def E(k, t="", i="", n=0):
@@ -78,6 +78,30 @@ def random_script(rng):
     return {"proto": proto, "keepalive": ka, "sched": s}
 
 
+def ping_scripts():
+    """Overlapping pings: k pings arrive back to back (all at once, or one per poll) while the suspended on_ping callback of
+    the first is still running; the gates are opened afterwards (ok / one failing), with polls in between; with and without
+    a completed handshake, for both protocols."""
+    out = []
+    for proto in ("GWS", "STWS"):
+        for hs in (False, True):
+            for k in (2, 3):
+                for burst in (True, False):
+                    for res in ([1] * k, [1] * (k - 1) + [0], [0] + [1] * (k - 1)):
+                        for tailpolls in (1, 2):
+                            s = [E("in", "init"), POLL, E("initres", n=1), POLL, POLL] if hs else []
+                            if burst:
+                                s += [E("in", "ping")] * k + [POLL, POLL]
+                            else:
+                                for _ in range(k):
+                                    s += [E("in", "ping"), POLL]
+                            for r in res:
+                                s += [E("pingres", n=r)] + [POLL] * tailpolls
+                            s += [E("in", "ping"), POLL, E("pingres", n=1), POLL]
+                            out.append({"proto": proto, "keepalive": False, "sched": s})
+    return out
+
+
 def show(tr):
     return " ".join((e["k"] if e["k"] != "out" else "") + (":" if e["k"] != "out" and (e["t"] or e["id"]) else "") +
                     (("<" + e["t"]) if e["k"] == "out" else e["t"]) + (("(%s)" % e["id"]) if e["id"] else "") +
@@ -90,6 +114,7 @@ def controls():
     hs = [E("in", "init"), E("recv", "init"), E("initcall"), O("pending"), E("initres", n=1), O("ack")]
     st = lambda i, g: [E("in", "start", i), E("recv", "start", i), E("exec", "", i, g)]
     dup = hs + st("a", 1) + [E("in", "start", "a"), E("recv", "start", "a")]
+    pg = [E("in", "ping"), E("recv", "ping"), E("pingcall"), O("pending")]
     return [
         ("ok", "GWS", hs + st("a", 1) + [E("ev", "", "a", 1), O("next", "a", 1), E("end", "", "a", 1), O("complete", "a"), O("pending")]),
         ("violation:P1", "GWS", [E("in", "init"), E("recv", "init"), E("initcall"), O("next", "a", 1)]),
@@ -116,6 +141,15 @@ def controls():
         ("violation:P5", "STWS", hs + st("a", 1) + [E("ev", "", "a", 1), E("in", "term"), E("recv", "term"), O("next", "a", 1)]),
         ("violation:P0", "GWS", hs + [O("close", "", 1000)]),
         ("violation:P0", "GWS", hs + [O("error")]),
+        ("ok", "GWS", pg + [E("pingres", n=1), O("pong", "", 1), O("pending")] + pg + [E("pingres", n=1), O("pong", "", 1), O("pong"), O("pending")]),
+        ("ok", "GWS", pg + pg + [E("pingres", n=1), O("pong", "", 1), O("pending"), E("pingres", n=1), O("pong", "", 1), O("pending")]),
+        ("violation:P6", "GWS", pg + pg + [E("pingres", n=1), O("pending")]),
+        ("violation:P6", "GWS", pg + pg + [E("pingres", n=1), E("pingres", n=1), O("pong", "", 2)]),
+        ("violation:P6", "GWS", pg + [O("pong", "", 1)]),
+        ("violation:P6", "GWS", pg + [E("pingres", n=1), O("pong", "", 1), O("pong", "", 1)]),
+        ("violation:P6", "GWS", hs + pg + [E("pingres", n=1), O("pending")]),
+        ("ok", "STWS", pg + pg + [E("pingres", n=1), E("pingres", n=1), O("pong", "", 2), O("pending")]),
+        ("ok", "GWS", pg + [E("pingres", n=0), O("close", "", 1002), O("none")]),
     ]
 
 
@@ -211,7 +245,7 @@ def body(c):
     for act in ("Client", "StreamEvent", "StreamEnd", "InitResolves", "PingResolves", "KeepAliveExpires", "Poll"):
         if m.coverage.get("WebSocket!" + act, (0, 0))[0] == 0:
             raise vlib.ToolError("vacuity: action %s never taken in mode M" % act)
-    c.add_tlc("M protocol as written, both protocols, keep-alive timer (%s): P0-P5, MonitorInSync" % mlabel, m)
+    c.add_tlc("M protocol as written, both protocols, keep-alive timer (%s): P0-P6, MonitorInSync" % mlabel, m)
     c.cov["coverage_actions"] = {k: list(v) for k, v in sorted(m.coverage.items()) if k.startswith("WebSocket!") and k.split("!")[1][0].isupper()
                                  and k.split("!")[1] in ("Client", "StreamEvent", "StreamEnd", "InitResolves", "PingResolves", "KeepAliveExpires", "Poll")}
     # ---- M: each deviation of today's code, switched on, violates clause P4 (design-level demonstration) ----
@@ -266,6 +300,9 @@ def body(c):
         raise vlib.ToolError("the protocol model violates the declarative clauses: " + str(gi.invariant_violated))
     c.add_tlc("M protocol as written satisfies the declarative clauses D1-D5 over the history", gi)
     n_graph = len(cases)
+    pings = ping_scripts()
+    cases += pings
+    c.cov["overlapping_ping_scripts"] = len(pings)
     for _ in range(600 if c.quick else 10000):
         cases.append(random_script(rng))
     # ---- harness + V -------------------------------------------------------------------------------
@@ -303,6 +340,7 @@ def body(c):
                      + "; ".join("%s polling with ids {%s}, <=%d events per run, <=%d client messages%s" %
                                  (nm, ",".join(ids), me, mi, ", keep-alive on/off" if len(kas) > 1 else "") for (nm, ids, me, mi, mq, eg, kas) in gens)
                      + (" (all replayed)" if exhaustive else " (seeded sample of %d per generator)" % cap)
+                     + "; plus %d scripts of 2-3 overlapping pings (back to back or one per poll, gates of the suspended on_ping callbacks opened afterwards)" % len(pings)
                      + "; plus seeded random scripts of up to 30 environment commands with ids a-c. Each is executed against the real "
                      "WebSocket stream; non-trivial = the server took at least one client message; distinct by recorded history")
     picks = [t for t in traces if t["verdict"].startswith("known")][:1] + [t for t in traces if any(e["t"] == "next" for e in t["events"])][:1] + traces[-1:]
@@ -311,6 +349,7 @@ def body(c):
     c.assumptions += ["the four integration crates only map WsMessage::Text/Close to frames and feed incoming frames in (read, not executed here)",
                       "close reasons, payload contents and the service order of two simultaneously ready operations are not compared",
                       "the close code of a rejected init/ping callback and of a keep-alive expiry is not judged (not fixed by the protocols)",
+                      "pongs are attributed to pings through the payload the harness's on_ping callback returns (its call number); pong-per-ping (P6) is judged for graphql-transport-ws only, the legacy protocol has no ping/pong",
                       "legacy protocol: a violation must be answered by connection_error+end or by a close frame of any code; a repeated start id is not a violation",
                       "cross-protocol message aliases (start/stop under graphql-transport-ws, subscribe/complete under the legacy protocol) are not exercised"]
 
